@@ -92,8 +92,8 @@ FIRING = [
                           "        token.value = token.value.lower()\n        token.type = self.keywords_dict.get(token.value, 'ID')", 0)], 'C06', 'R06.1'),
     ('div-before-comment', [(L, "    t_DIV           = r'/'", "    t_DIV           = r'(?:(?:(?:(?:(?:(?:/))))))'", 0)], 'C06', 'R06.3'),
     ('literal-eval-replaced', [('unparsers/extractor.py', "    'Null': (\n        Raw(value=None),", "    'Null': (\n        Raw(value='null'),", 0)], 'C19', 'R19.1'),
-    ('comment-flag-leaks', [(L, "    def _is_prev_token_lt(self):\n        return self.prev_token and",
-                             "    def _is_prev_token_lt(self):\n        if self.with_comments:\n            return False\n        return self.prev_token and", 0)], 'C13', 'R13.1'),
+    ('comment-flag-leaks', [(L, "    def _is_prev_token_lt(self):\n        return self.lt_before_cur_token",
+                             "    def _is_prev_token_lt(self):\n        if self.with_comments:\n            return False\n        return self.lt_before_cur_token", 0)], 'C13', 'R13.1'),
     ('getpos-line-col-swapped', [('handlers/core.py', "    _, lineno, colno = node.getpos(';', 0)\n    yield StreamFragment(';', lineno, colno, None, None)\n\n\ndef layout_handler_semicolon_optional",
                                   "    _, colno, lineno = node.getpos(';', 0)\n    yield StreamFragment(';', lineno, colno, None, None)\n\n\ndef layout_handler_semicolon_optional", 0)], 'C08', 'R08.3'),
 ]
